@@ -478,6 +478,16 @@ def native_timelimit_replay(model):
         opaque.OVERRIDES.update(old_ov)
 
 
+def timelimit_ctor_obligation(S):
+    """the limit the wrapper enforces is the one it was constructed with (stacks whose leaves are made symbolic bypass __init__)"""
+    fn = "lerax.wrapper.misc:TimeLimit"
+    ctxc = Ctx()
+    n_in = sym(ctxc, "max_episode_steps", sd((), jnp.int32))
+    stored = run(ctxc, lambda n_: jnp.asarray(W.TimeLimit(inner_env(), n_).max_episode_steps), n_in)
+    S.prove("TimeLimit.__init__/stores-the-limit", ctxc, ir.seq(stored.scalar(), n_in.scalar()), function=fn + ".__init__", replay=native_timelimit_replay,
+            what="for every integer N: TimeLimit(env, N).max_episode_steps == N")
+
+
 def unit_timelimit(S):
     """TimeLimit(N): ghost c = number of transitions since initial.  Inv: step_count = c.  truncate(s) = inner.truncate(s.env_state) or c >= N."""
     fn = "lerax.wrapper.misc:TimeLimit"
@@ -490,12 +500,7 @@ def unit_timelimit(S):
     s = sym(ctx, "s", st_s)
     a = sym(ctx, "a", a_s)
     k, kc = kit.key_input("key")
-    # the limit the wrapper enforces is the one it was constructed with (the stack above is symbolic in its leaves, which bypasses __init__)
-    ctxc = Ctx()
-    n_in = sym(ctxc, "max_episode_steps", sd((), jnp.int32))
-    stored = run(ctxc, lambda n_: jnp.asarray(W.TimeLimit(inner_env(), n_).max_episode_steps), n_in)
-    S.prove("TimeLimit.__init__/stores-the-limit", ctxc, ir.seq(stored.scalar(), n_in.scalar()), function=fn + ".__init__", replay=native_timelimit_replay,
-            what="for every integer N: TimeLimit(env, N).max_episode_steps == N")
+    timelimit_ctor_obligation(S)
     ns = run(ctx, lambda e, s_, a_, kk: e.transition(s_, a_, key=kk), env_in, s, a, k)
     S.prove("TimeLimit.transition/count-increments", ctx, ir.seq(ns.step_count.scalar(), s.step_count.scalar() + 1), replay=native_timelimit_replay, function=fn + ".transition",
             what="every transition advances the episode clock by exactly one")
